@@ -174,11 +174,15 @@ func asm15Exec(c *Ctx, op string) {
 	out := fmt.Sprintf("evs=%s res=%s", strings.Join(runLog, ","), res)
 	var tdLog []string
 	tdErr := false
+	tdErrText := ""
 	if res == "ok" {
 		n0 := len(log)
 		terr := cleanup()
 		tdLog = append([]string(nil), log[n0:]...)
 		tdErr = terr != nil
+		if terr != nil {
+			tdErrText = terr.Error()
+		}
 		out += fmt.Sprintf(" td=%s tderr=%v", strings.Join(tdLog, ","), tdErr)
 		// a caller that retries the teardown (say, after it failed) gets the same rule again: newest first, nothing
 		// deleted after a failure — the scripted janitors answer as before
@@ -288,6 +292,18 @@ func asm15Exec(c *Ctx, op string) {
 		}
 		if anyFail != tdErr {
 			c.PropFail("teardown-error-lost", fmt.Sprintf("teardown error reported=%v but a janitor failed=%v", tdErr, anyFail), op)
+		}
+		// the first failure (in time: the newest failing placement among those attempted) is what is reported
+		for _, w := range want {
+			var id int
+			fmt.Sscanf(w, "A%d", &id)
+			if fails[id] {
+				if tdErr && !strings.Contains(tdErrText, fmt.Sprintf("injected teardown failure %d", id)) {
+					c.PropFail("teardown-error-lost", fmt.Sprintf("teardown attempted %v, the first step to fail was %d, the error reported is %q", want, id, tdErrText), op)
+				}
+				c.H("first-failure-checked")
+				break
+			}
 		}
 	}
 	c.Distinct(op)
